@@ -69,6 +69,14 @@ pub fn family_cfg(family_name: &str, seed: u64, big: bool) -> Cfg {
         }
         file_backed[0] = true;
     }
+    if family == "cache" {
+        // Own stream (shifts no other draw): some replicas of the peer-cache family sit on the
+        // simulated disk so that read faults can be placed inside cache updates.
+        let mut f = Rng::derive(seed, "cfg-file");
+        for x in file_backed.iter_mut() {
+            *x = f.chance(1, 3);
+        }
+    }
     let max_steps = match (family, big) {
         ("sync-size", false) => 260,
         ("sync-size", true) => 900,
@@ -441,7 +449,7 @@ impl Gen {
             }
             10 => {
                 let r = *self.sched.pick(&with_graph);
-                Step::CacheAdd { r, peer: self.sched.usize_below(n), sel: Sel::Present(self.wl.below(256) as u32), bogus: if self.wl.chance(1, 6) { self.wl.range(1, 2) as u8 } else { 0 } }
+                Step::CacheAdd { r, peer: self.sched.usize_below(n), sel: Sel::Present(self.wl.below(256) as u32), bogus: if self.wl.chance(1, 6) { self.wl.range(1, 2) as u8 } else { 0 }, read_fault: if sim.is_file(r) && self.net.chance(1, 3) { Some(self.net.below(40) as u32) } else { None } }
             }
             12 => {
                 // Few segments and max cuts so that entries collide.
